@@ -1,13 +1,14 @@
 package main
 
 import (
-	"encoding/json"
 	"bufio"
 	"bytes"
+	"encoding/json"
 	"fmt"
 	"os"
 	"os/exec"
 	"path/filepath"
+	"sort"
 	"strconv"
 	"strings"
 	"sync"
@@ -285,6 +286,133 @@ func scenarioC16(c *Ctx) {
 	}
 	c.Case("over-limit", true, fmt.Sprintf("board 3 1 1 %d 2 2 %d 3 3 %d | 0 0 0", lens[0], lens[1], lens[2]), "board offsets="+strings.Join(offsObs, ",")+" read="+obs)
 	c16SparseLines(c, fail)
+	c16RawFiles(c)
+}
+
+// c16RawFiles: arbitrary board files against the model's reader (Board/Raw.v).  Lines are genuine
+// sends, hand-written entries that claim any offset (or none), and lines that do not decode; every
+// file is read from several offsets with and without ignore lists.  Whether a line decodes is
+// decided with the project's own message type; what is compared is what the reader makes of it:
+// which entries it hands out, in which order, under which offsets.
+func c16RawFiles(c *Ctx) {
+	nfiles := 8
+	if !c.Quick() {
+		nfiles = 60
+	}
+	for fi := 0; fi < nfiles; fi++ {
+		dir := filepath.Join(c.OutDir, fmt.Sprintf("board-raw-%d", fi))
+		os.MkdirAll(dir, 0755)
+		file, lock := filepath.Join(dir, "board"), filepath.Join(dir, "lock")
+		n := 3 + c.Rng.Intn(9)
+		long := fi == 1 // one file with a line beyond the reader's limit
+		for i := 0; i < n; i++ {
+			tag := i + 1
+			r := c.Rng.Intn(12)
+			if long && i == n/2 {
+				r = 11
+			}
+			switch {
+			case r < 3: // a genuine send (its offset claim is its position)
+				st, err := file_storage.NewFileStorage(file, lock)
+				if err != nil {
+					panic(err)
+				}
+				st.Send(storage.Message{DkgRoundID: "r", Event: fmt.Sprintf("t%d", tag), Data: []byte("payload"), SenderAddr: "w"})
+				st.Close()
+			default:
+				fh, _ := os.OpenFile(file, os.O_APPEND|os.O_CREATE|os.O_WRONLY, 0644)
+				id := fmt.Sprintf("id-%d", 1+c.Rng.Intn(4))
+				claims := []string{fmt.Sprint(i), "0", "900", "18446744073709551615", "18446744073709551616", "-1", `"4"`, fmt.Sprint(i + 1)}
+				switch {
+				case r < 8:
+					fmt.Fprintf(fh, `{"id":"%s","dkg_round_id":"r","offset":%s,"event":"t%d"}`+"\n", id, claims[c.Rng.Intn(len(claims))], tag)
+				case r == 8:
+					fmt.Fprintf(fh, `{"id":"%s","event":"t%d"}`+"\n", id, tag) // no offset claim at all
+				case r == 9:
+					fmt.Fprintln(fh, []string{"this line is not JSON at all", "[1,2]", "7", `"text"`, "", `{"id":"id-1","data":"!!not base64!!"}`}[c.Rng.Intn(6)])
+				case r == 10:
+					fmt.Fprintln(fh, []string{"{}", "null"}[c.Rng.Intn(2)]) // decodes: an entry with every field empty
+				default:
+					if long {
+						fmt.Fprintln(fh, strings.Repeat("x", 1200000))
+					} else {
+						fmt.Fprintf(fh, `{"id":"%s","offset":%d,"event":"t%d","data":"%s"}`+"\n", id, i, tag, strings.Repeat("QUJD", c.Rng.Intn(2000)))
+					}
+				}
+				fh.Close()
+			}
+		}
+		raw, _ := os.ReadFile(file)
+		rows := strings.Split(strings.TrimSuffix(string(raw), "\n"), "\n")
+		idTok := map[string]int{"": 0}
+		var desc []string
+		for _, row := range rows {
+			var m storage.Message
+			if err := json.Unmarshal([]byte(row), &m); err != nil {
+				desc = append(desc, fmt.Sprintf("J %d", len(row)))
+				continue
+			}
+			if _, ok := idTok[m.ID]; !ok {
+				idTok[m.ID] = len(idTok) + 10
+			}
+			tag := 0
+			fmt.Sscanf(m.Event, "t%d", &tag)
+			desc = append(desc, fmt.Sprintf("E %d %d %d %d", tag, m.Offset, idTok[m.ID], len(row)))
+		}
+		var idNames []string
+		for name := range idTok {
+			if name != "" {
+				idNames = append(idNames, name)
+			}
+		}
+		sort.Strings(idNames)
+		ks := []int{0, len(rows), len(rows) + 3}
+		for j := 0; j < 3; j++ {
+			ks = append(ks, c.Rng.Intn(len(rows)+1))
+		}
+		for qi, k := range ks {
+			var ids []string
+			var offs []int
+			if qi%2 == 1 {
+				for _, name := range idNames {
+					if c.Rng.Intn(3) == 0 {
+						ids = append(ids, name)
+					}
+				}
+				for j := 0; j < c.Rng.Intn(3); j++ {
+					offs = append(offs, c.Rng.Intn(len(rows)+1))
+				}
+			}
+			h, err := file_storage.NewFileStorage(file, lock)
+			if err != nil {
+				panic(err)
+			}
+			h.IgnoreMessages(ids, false)
+			var offStr, idStr, offDesc []string
+			for _, o := range offs {
+				offStr = append(offStr, fmt.Sprint(o))
+				offDesc = append(offDesc, fmt.Sprint(o))
+			}
+			for _, name := range ids {
+				idStr = append(idStr, fmt.Sprint(idTok[name]))
+			}
+			h.IgnoreMessages(offStr, true)
+			ms, err := h.GetMessages(uint64(k))
+			h.Close()
+			obs := "boardraw error"
+			if err == nil {
+				var l []string
+				for _, m := range ms {
+					tag := 0
+					fmt.Sscanf(m.Event, "t%d", &tag)
+					l = append(l, fmt.Sprintf("%d@%d", tag, m.Offset))
+				}
+				obs = "boardraw read=" + strings.Join(l, ",")
+			}
+			line := fmt.Sprintf("boardraw %d %s | %d %d %s %d %s", len(rows), strings.Join(desc, " "), k, len(ids), strings.Join(idStr, " "), len(offs), strings.Join(offDesc, " "))
+			c.Case("raw-file", true, strings.Join(strings.Fields(line), " "), obs)
+		}
+	}
 }
 
 // c16SparseLines: what an entry says must not depend on where the reader started. Anybody who can
